@@ -40,6 +40,24 @@ CHECKS.update({
    text="TLC checks that with max_tau > 0 no pair of spikes max_tau or more apart is in the coincidence set and that the set grows with max_tau (None = unbounded); every TLC state is executed on spike_sync_profile, spike_train_order_profile, spike_directionality_values and filter_by_spike_sync: each spike the code marks coincident must have a partner closer than max_tau, None / 0 / omitted must agree, and marks must persist when max_tau grows; dense and sparse grids so that spikes have neighbours on both sides.",
    note="absolute agreement of the marks with the definition is C03/C04; small scope; two unit scales"),
 })
+CHECKS.update({
+ "C09": dict(engine="B function objects", design_ref="5 C09",
+   technique="TLC exhaustive model checking of FuncObjects.tla (heap with ghost denotations; Represents, XIsUnion, OnlyReceiverChanges, Commutes, IntegralLinear) + replay of every transition into real function objects with whole-heap comparison",
+   text="A heap of three function objects over every pair of breakpoint patterns with generic piece values; the add routines (merge loop, tail-copy branches, simultaneous end) are transcribed and TLC checks in every reachable state that the concrete arrays denote the ghost linear combination (one-sided limits at every grid point), that breakpoints are the strictly increasing union, that only the receiver changes, that addition commutes and the integral is linear. Every transition (pre-heap, op, post-heap) is replayed on PieceWiseConstFunc / PieceWiseLinFunc under both add backends: the whole heap is compared and an independence probe (scale one object, all others bit-identical) detects shared arrays.",
+   note="histories are covered transition-wise from every heap reachable within MaxOps operations (2 quick / 3 thorough); small grids; tolerance 1e-10"),
+ "C10": dict(engine="B function objects", design_ref="5 C10",
+   technique="TLC exhaustive model checking of FuncQuery.tla (code formula = exact Riemann integral / evaluation rule for every function x query) + replay of every state into integral / avrg / __call__ / get_plottable_data",
+   text="The index search (searchsorted right/left), the same-piece and general branches of integral, avrg for one and several intervals, the scalar and the vectorised evaluation path and the plottable arrays are transcribed; TLC checks them against the declarative integral (overlap with every piece), additivity at every split point, full = whole support, the evaluation rule (piece / mean of limits at interior breakpoints / one-sided at the ends). Every state is replayed into the real methods (tuple and list interval forms, scalar and list times) on a support that does not start at 0, at two unit scales.",
+   note="all breakpoint patterns of a 5-7 point support, all a<b on the quarter grid, generic values; tolerance 1e-10"),
+ "C11": dict(engine="B function objects", design_ref="5 C11",
+   technique="TLC exhaustive model checking of FuncObjects.tla (Kind=disc) and FuncQuery.tla (open-interval sums, ratio-or-1, smoothing = unit mean) + replay of every transition / query state into DiscreteFunc",
+   text="Discrete add (merge, tails, edge fix-up) is transcribed; TLC checks one entry per distinct event time with summed values / multiplicities (ghost combination), framing edges, and for every function and interval that integral sums exactly the events strictly inside, several intervals add, avrg is the ratio or 1, and that the smoothing loop equals the mean over unit contributions for k = 0,1,2. Transitions and query states are replayed into DiscreteFunc.add / mul_scalar / copy / integral / avrg / get_plottable_data under both add backends.",
+   note="events on integer times incl. the edge times; multiplicities 1..3; small grids"),
+ "C12": dict(engine="A + B (twins)", design_ref="5 C12",
+   technique="replay of the TLC-exported argument tuples of IsiScan / SpikeScan / SyncScan / FuncObjects into both members of each of the 15 routine pairs (python_backend vs transliterated .pyx), single-pass routines vs sums over the profile",
+   text="Both implementations are bound to the same L2 specification modules; every terminal state / add transition TLC exports is executed on the pure-Python routine and on the .pyx routine (source-level transliteration with bounds-checked memoryviews and C division) and the two results are compared with each other; the five single-pass routines are compared with the sum / average of the corresponding profile; get_tau is compared for every index pair the scans can request; the existence of all 15 pairs is checked.",
+   note="executes the .pyx source semantics, not a C build: C compilation, int overflow and nogil threading are not covered"),
+})
 NOT_YET = {}
 
 def main():
@@ -71,6 +89,8 @@ def main():
                   "source_commits": [], "add_only": True},
         "engines": [
             {"name": "A pair-scan", "path": "spec/IsiScan.tla spec/SpikeScan.tla spec/SyncScan.tla spec/SingleScan.tla harness/checkers.py", "serves_properties": ["C01", "C02", "C03", "C04"], "kind_free_text": "TLC exhaustive over all train pairs x keywords, JSON export of terminal states, replay into python backend, transliterated .pyx kernels and public API"},
+            {"name": "B function objects", "path": "spec/FuncObjects.tla spec/FuncQuery.tla harness/checkers_func.py", "serves_properties": ["C09", "C10", "C11"], "kind_free_text": "TLC exhaustive over heaps of function objects and over (function, query) pairs; every transition / state replayed into the real classes"},
+            {"name": "A + B (twins)", "path": "harness/checkers_rel.py (twin_*) harness/pyxshim.py", "serves_properties": ["C12"], "kind_free_text": "both members of each routine pair executed on every TLC export"},
             {"name": "A pair-scan (relations)", "path": "spec/Relations.tla harness/checkers_rel.py", "serves_properties": ["C07", "C08", "C15", "C16"], "kind_free_text": "TLC checks the relation on the declarative definitions for all pairs; each state is one case executed on the code before/after the transformation"},
         ],
         "checks": checks,
